@@ -150,6 +150,50 @@ pub fn install_global_panic_hook() {
     }));
 }
 
+// ---------------------------------------------------------------------------------------------
+// per-run watchdog: a simulated execution that does not come back
+// ---------------------------------------------------------------------------------------------
+//
+// Every scenario's reference run is screened in a resource-limited pristine child, but a VARIANT
+// configuration can take a path the reference never takes (a change that goes parallel above a
+// pool size of 1, a forced overlay knob meeting an intermediate result) and not come back.  A
+// thread cannot be killed, so a harness thread watches the run in flight: past the limit it
+// writes `<out>/C20-shard<i>.stuck` (what ran, under which configuration, which step of the shard
+// loop) and ends the process with status 86; the driver records the stuck run, decides what it
+// means (DESIGN.md 8.3) and re-launches the chunk with that step skipped.
+
+struct Watch {
+    since: Instant,
+    limit_s: u64,
+    what: Value,
+}
+static WATCH: Mutex<Option<Watch>> = Mutex::new(None);
+/// the step of the shard loop that is in flight ("<run>:ref", "<run>:<variant>", "<run>:min", "cross:<k>")
+static WATCH_TOKEN: Mutex<String> = Mutex::new(String::new());
+static WATCH_LIMIT_S: std::sync::atomic::AtomicU64 = std::sync::atomic::AtomicU64::new(0);
+
+fn set_token(t: String) {
+    *WATCH_TOKEN.lock().unwrap_or_else(|p| p.into_inner()) = t;
+}
+
+fn start_watchdog(a: &Args, limit_s: u64) {
+    WATCH_LIMIT_S.store(limit_s, std::sync::atomic::Ordering::SeqCst);
+    let path = format!("{}/C20-shard{}.stuck", a.out_dir, a.shard_i);
+    let _ = std::fs::remove_file(&path);
+    std::thread::spawn(move || loop {
+        std::thread::sleep(std::time::Duration::from_millis(250));
+        let g = WATCH.lock().unwrap_or_else(|p| p.into_inner());
+        if let Some(w) = g.as_ref() {
+            if w.since.elapsed().as_secs() >= w.limit_s {
+                let token = WATCH_TOKEN.lock().unwrap_or_else(|p| p.into_inner()).clone();
+                let rec = json!({"token": token, "limit_s": w.limit_s, "what": w.what});
+                let _ = std::fs::write(&path, serde_json::to_vec(&rec).unwrap_or_default());
+                unsafe { libc::_exit(86) };
+            }
+        }
+    });
+}
+
 fn exec(op: &OpDef, input: &Input) -> Vec<u8> {
     let mut o = Out::new();
     (op.f)(input, &mut o);
@@ -160,6 +204,10 @@ fn exec(op: &OpDef, input: &Input) -> Vec<u8> {
 pub fn run_one(sc: &Scenario, op: &'static OpDef, input: &Input, prefix_inputs: &[(&'static OpDef, Input)], cfg: &Cfg) -> (Outcome, RunInfo) {
     let t_run = Instant::now();
     *PANIC_AT.lock().unwrap_or_else(|p| p.into_inner()) = None;
+    let limit_s = WATCH_LIMIT_S.load(std::sync::atomic::Ordering::SeqCst);
+    if limit_s > 0 {
+        *WATCH.lock().unwrap_or_else(|p| p.into_inner()) = Some(Watch { since: t_run, limit_s, what: json!({"scenario": sc, "config": cfg}) });
+    }
     if sc.knobs.strategy == 0 {
         geo::algorithm::bool_ops::verif_hooks::clear_solver();
     } else {
@@ -264,6 +312,9 @@ pub fn run_one(sc: &Scenario, op: &'static OpDef, input: &Input, prefix_inputs: 
     };
     seams::end_run();
     seams::end_env();
+    if limit_s > 0 {
+        *WATCH.lock().unwrap_or_else(|p| p.into_inner()) = None;
+    }
     let info = RunInfo {
         wall_us: t_run.elapsed().as_micros() as u64,
         report,
@@ -508,6 +559,53 @@ fn class_of(reference: &Outcome, got: &Outcome) -> &'static str {
     }
 }
 
+fn dims_of(cfg: &Cfg, sc: &Scenario) -> Vec<&'static str> {
+    let mut needed = vec![];
+    if !cfg.prefix.is_empty() {
+        needed.push("prefix");
+    }
+    if cfg.from_worker {
+        needed.push("from_worker");
+    }
+    if cfg.repeat {
+        needed.push("repeat");
+    }
+    if cfg.callers > 1 {
+        needed.push("callers");
+    }
+    if cfg.inplace {
+        needed.push("inplace-history");
+    }
+    if cfg.clock_seed != 0 {
+        needed.push("clock");
+    }
+    if cfg.cpus != 0 {
+        needed.push("cpus");
+    }
+    if cfg.stack_seed != 0 {
+        needed.push("stack");
+    }
+    if cfg.env_seed != 0 {
+        needed.push("env");
+    }
+    if cfg.addr_seed.is_some() {
+        needed.push("addr");
+    }
+    if cfg.hash_seed != 0 {
+        needed.push("hash");
+    }
+    if cfg.strategy != "sequential" {
+        needed.push("schedule");
+    }
+    if cfg.workers != 1 {
+        needed.push("workers");
+    }
+    if sc.knobs.strategy != 0 {
+        needed.push("knobs");
+    }
+    needed
+}
+
 struct Minimised {
     sc: Scenario,
     cfg: Cfg,
@@ -515,6 +613,8 @@ struct Minimised {
     got: Outcome,
     needed: Vec<&'static str>,
     decisions: Vec<Decision>,
+    /// false if the minimisation budget (wall time) ran out: the case is then smaller than found, not minimal
+    complete: bool,
 }
 
 fn minimise(sc: &Scenario, cfg: &Cfg) -> Option<Minimised> {
@@ -522,9 +622,18 @@ fn minimise(sc: &Scenario, cfg: &Cfg) -> Option<Minimised> {
     let mut sc = sc.clone();
     let mut cfg = cfg.clone();
     let refcfg = Cfg::reference();
+    // minimisation is a service to the reader, not part of the verdict: when the runs are slow (a
+    // change that makes every execution cost seconds) it stops at a wall budget and reports what
+    // it has; the replay file is self-contained either way
+    let t_min = Instant::now();
+    let over = || t_min.elapsed().as_secs() >= 100;
     // (iii) smaller input first (cheaper afterwards): shrink the size parameter
     loop {
         let mut improved = false;
+        // (the shrink phase gets at most 40 s of the 100 s: which dimensions are needed says more)
+        if t_min.elapsed().as_secs() >= 40 {
+            break;
+        }
         for cand in [sc.input.size / 2, sc.input.size.saturating_sub(1)] {
             if cand == 0 || cand >= sc.input.size {
                 continue;
@@ -549,7 +658,7 @@ fn minimise(sc: &Scenario, cfg: &Cfg) -> Option<Minimised> {
     let mut try_reset = |name: &'static str, f: &dyn Fn(&mut Cfg), cfg: &mut Cfg| -> bool {
         let mut t = cfg.clone();
         f(&mut t);
-        if t == *cfg {
+        if t == *cfg || over() {
             return false;
         }
         if differs(&sc, op, &input, &t, &reference).is_some() {
@@ -627,7 +736,9 @@ fn minimise(sc: &Scenario, cfg: &Cfg) -> Option<Minimised> {
         needed.push("workers");
     }
     // knobs: back to the shipped configuration if the violation survives
-    if sc.knobs.strategy != 0 {
+    if sc.knobs.strategy != 0 && over() {
+        needed.push("knobs");
+    } else if sc.knobs.strategy != 0 {
         let mut t = sc.clone();
         t.knobs = Knobs { strategy: 0, par_sort_min_size: 32768 };
         let (r2, _) = run_one(&t, op, &input, &[], &refcfg);
@@ -643,10 +754,10 @@ fn minimise(sc: &Scenario, cfg: &Cfg) -> Option<Minimised> {
     let (got, info) = differs(&sc, op, &input, &cfg, &reference)?;
     let mut decisions = info.report.decisions.clone();
     let mut got = got;
-    if needed.contains(&"schedule") {
+    if needed.contains(&"schedule") && !over() {
         let full: Vec<u32> = info.report.chosen();
         let (mut lo, mut hi) = (0usize, full.len());
-        while lo < hi {
+        while lo < hi && !over() {
             let mid = (lo + hi) / 2;
             let mut t = cfg.clone();
             t.decisions = Some(full[..mid].to_vec());
@@ -664,7 +775,8 @@ fn minimise(sc: &Scenario, cfg: &Cfg) -> Option<Minimised> {
             decisions = i2.report.decisions[..hi.min(i2.report.decisions.len())].to_vec();
         }
     }
-    Some(Minimised { sc, cfg, reference, got, needed, decisions })
+    let complete = !over();
+    Some(Minimised { sc, cfg, reference, got, needed, decisions, complete })
 }
 
 /// input predicates used by known_findings.json matching
@@ -714,6 +826,7 @@ fn replay_json(a: &Args, r: u64, m: &Minimised, orig_sc: &Scenario, orig_cfg: &C
         "difference": {"class": class_of(&m.reference, &m.got), "first_byte": first_diff, "needed_dimensions": m.needed},
         "predicates": predicates(&m.sc),
         "minimised_from": {"scenario": orig_sc, "config": orig_cfg},
+        "minimisation_complete": m.complete,
     })
 }
 
@@ -862,6 +975,12 @@ pub fn run(a: &Args) -> i32 {
     let mut effort_samples: Vec<Value> = Vec::new();
     let mut hazards: Vec<Value> = Vec::new();
     let refcfg = Cfg::reference();
+    // steps of this shard that an earlier launch of the same chunk did not come back from
+    let skip: std::collections::BTreeSet<String> = a.extra.get("skip").map(|s| s.split(',').filter(|t| !t.is_empty()).map(|t| t.to_string()).collect()).unwrap_or_default();
+    let run_limit: u64 = a.extra.get("run-limit").and_then(|s| s.parse().ok()).unwrap_or(if large > 0 { 900 } else { 120 });
+    if run_limit > 0 {
+        start_watchdog(a, run_limit);
+    }
 
     let until: u64 = a.extra.get("until").and_then(|s| s.parse().ok()).unwrap_or(u64::MAX);
     let mut r = a.shard_i;
@@ -883,6 +1002,12 @@ pub fn run(a: &Args) -> i32 {
         // input can drive a dependency into unbounded work - a hazard, not a C20 verdict.
         // (b) Its digest must equal the digest computed here, after this process's history.
         let mut pristine_digest: Option<u64> = None;
+        if skip.contains(&format!("{}:ref", r)) {
+            tot.add("scenarios_skipped_stuck", 1);
+            r += a.shard_n;
+            continue;
+        }
+        set_token(format!("{}:ref", r));
         if let Some(p) = &pristine {
             tot.add("guarded_scenarios", 1);
             match p.ask(&serde_json::to_vec(&sc).unwrap(), if large > 0 { 90 } else { 2 }) {
@@ -943,6 +1068,11 @@ pub fn run(a: &Args) -> i32 {
         }
         tot.max("max_segments", input.segments as u64);
         for v in 0..variants {
+            if skip.contains(&format!("{}:{}", r, v)) {
+                tot.add("variants_skipped_stuck", 1);
+                continue;
+            }
+            set_token(format!("{}:{}", r, v));
             let mut cfg = gen_cfg(s_r, v);
             // the sweep-based operations can run away on some (invalid / degenerate) inputs: a
             // same-operation prefix on ANOTHER input is screened in the pristine child like the
@@ -1022,7 +1152,15 @@ pub fn run(a: &Args) -> i32 {
                 let cls = class_of(&reference, &got);
                 let same_kind = violations.iter().filter(|x| !x["replay"].is_null() && x["op"] == sc.op.as_str() && x["class0"] == cls).count();
                 if same_kind < 2 && violations.iter().filter(|x| !x["replay"].is_null()).count() < 8 {
-                    match minimise(&sc, &cfg) {
+                    set_token(format!("{}:min", r));
+                    let minimised = if skip.contains(&format!("{}:min", r)) {
+                        // an earlier launch did not come back from minimising this one: report it as found
+                        tot.add("minimisations_skipped_stuck", 1);
+                        Some(Minimised { sc: sc.clone(), cfg: cfg.clone(), reference: reference.clone(), got: got.clone(), needed: dims_of(&cfg, &sc), decisions: info.report.decisions.clone(), complete: false })
+                    } else {
+                        minimise(&sc, &cfg)
+                    };
+                    match minimised {
                         Some(m) => {
                             let rep = replay_json(a, r, &m, &sc, &cfg);
                             let path = write_replay(a, &format!("C20-{}-{}{}-{}.json", a.seed, if large > 0 { "L" } else { "" }, r, v), &rep);
@@ -1049,6 +1187,11 @@ pub fn run(a: &Args) -> i32 {
         let s_k = mix(&[a.seed, name_hash("C20-cross"), k]);
         let sc = gen_scenario(s_k, 0);
         let op = ops::find(&sc.op).unwrap();
+        if skip.contains(&format!("cross:{}", k)) {
+            cross_digests.push("skipped".to_string());
+            continue;
+        }
+        set_token(format!("cross:{}", k));
         // screened like every other scenario (a skipped entry is ignored by the comparison)
         if let Some(p) = &pristine {
             if p.ask(&serde_json::to_vec(&sc).unwrap(), 2).is_none() {
@@ -1117,6 +1260,24 @@ pub fn replay(a: &Args) -> i32 {
             }
         }
         println!("NOT-REPRODUCED property=C20 replay={} (21 executions agree)", f);
+        return 0;
+    }
+    if v["kind"] == "stuck" {
+        // the recorded configuration did not return within the limit: run it again under the same watchdog
+        // (status 86 = it did not come back again; the driver prints the VIOLATION line)
+        let sc: Scenario = serde_json::from_value(v["scenario"].clone()).expect("scenario");
+        let cfg: Cfg = serde_json::from_value(v["variant"]["config"].clone()).expect("config");
+        let op = ops::find(&sc.op).expect("op");
+        let input = inputs::build(&sc.input);
+        let mut a2 = a.clone();
+        a2.out_dir = std::env::temp_dir().display().to_string();
+        a2.shard_i = std::process::id() as u64;
+        set_token("replay".into());
+        start_watchdog(&a2, v["limit_s"].as_u64().unwrap_or(120));
+        let pin = prefix_inputs_for(&sc, &cfg);
+        let (got, _) = run_one(&sc, op, &input, &pin, &cfg);
+        println!("returned: {}", got.to_json());
+        println!("NOT-REPRODUCED property=C20 replay={}", f);
         return 0;
     }
     if v["kind"] == "fresh-process" {
